@@ -112,11 +112,25 @@ Definition c05_attach_spec (case i : sx) : bool :=
   Nat.eqb (length (nexts log) + count_over log) before &&
   (if Nat.leb before cap_ then Nat.eqb (count_over log) 0 else true).
 
+(* tag 5: the AttachHandle of a global sink is dropped while other threads are inside `try_append` (one of them may be
+   held there, i.e. under the sink's read lock).  i = ((all events) (events when drop(AttachHandle) returned)).
+   When the drop returns the stream has been flushed and dropped; the entries thread 1 appended before the drop began
+   are written (or counted as displaced); nothing reaches the stream afterwards; no entry is written twice. *)
+Definition c05_attach_race_spec (case i : sx) : bool :=
+  let full := stress_events i in
+  let at_ret := flat_map (fun e => opt_list (dec_ev e)) (sx_list (sx_nth i 1)) in
+  let before := sx_nat (sx_arg case 1) in
+  closed_properly at_ret && nothing_after_drop full &&
+  Nat.eqb (length (nexts full)) (length (nexts at_ret)) &&
+  all_accounted (thread_seq 1 before) at_ret full &&
+  nodup_ent (nexts full).
+
 Definition c05_holds (x : sx) : sx :=
   let case := sx_nth x 0 in let i := sx_nth x 1 in
   of_bool match sx_tag case with
           | 0%Z => c05_sched_spec case i
           | 1%Z => c05_stress_spec case i
           | 3%Z => c05_forget_spec case i
+          | 5%Z => c05_attach_race_spec case i
           | _ => c05_attach_spec case i
           end.
